@@ -113,20 +113,23 @@ def arr_map(E, fn, arrs, kind, node=None):
     """element-wise combination of arrays of identical shape (scalars broadcast)"""
     ref = None
     for a in arrs:
-        if isinstance(a, NdArr):
-            if ref is None:
-                ref = a
-            else:
-                if a.ndim != ref.ndim:
-                    raise Unsupported("broadcast between ranks %d and %d" % (a.ndim, ref.ndim))
+        if isinstance(a, NdArr) and (ref is None or a.ndim > ref.ndim):
+            ref = a
+    for a in arrs:
+        if isinstance(a, NdArr) and a is not ref:
+            if a.ndim == ref.ndim:
                 shapes_equal(E, ref.shape, a.shape, node)
+            elif a.ndim == 1 and ref.ndim == 2:
+                shapes_equal(E, (ref.shape[1],), a.shape, node)      # numpy broadcasting: a vector along the rows of a matrix
+            else:
+                raise Unsupported("broadcast between ranks %d and %d" % (a.ndim, ref.ndim))
     frozen = [a.snapshot() if isinstance(a, NdArr) else a for a in arrs]
 
     def f(*i):
-        return fn(*[x.get(*i) if isinstance(x, NdArr) else znum(x) for x in frozen])
+        return fn(*[(x.get(*i[len(i) - x.ndim:]) if isinstance(x, NdArr) else znum(x)) for x in frozen])
 
     nan_srcs = [x for x in frozen if isinstance(x, NdArr) and x.cell.nan is not None]
-    nanfn = (lambda *i: z3.Or(*[x.isnan(*i) for x in nan_srcs])) if nan_srcs else None
+    nanfn = (lambda *i: z3.Or(*[x.isnan(*i[len(i) - x.ndim:]) for x in nan_srcs])) if nan_srcs else None
     out = NdArr.from_fn("t", ref.shape, kind, f, nanfn)
     if any(isinstance(a, NdArr) and getattr(a.cell, "masked", False) for a in arrs):
         out.cell.masked = True         # numpy.ma: the result of an operation on masked arrays is masked where an operand is
@@ -473,6 +476,11 @@ def arr_method(R, E, arr, name, args, kwargs, node):
         return R.np_sum(E, arr, *args, **kwargs)
     if name == "mean":
         return R.np_mean(E, arr, *args, **kwargs)
+    if name == "std":
+        axis = args[0] if args else kwargs.get("axis")
+        if arr.ndim == 2 and axis == 0:
+            return R.col_stat(E, arr, "std")
+        raise Unsupported("std(axis=%r) of a %d-d array" % (axis, arr.ndim))
     if name == "reshape":
         return R.np_reshape(E, arr, *args, **kwargs)
     if name == "tolist" and all(conc(s) for s in arr.shape) and arr.ndim == 1:
@@ -545,8 +553,35 @@ def install(R):
         check_dims(E, shape)
         k = kind_of_dtype(dtype, "real" if fill_value is NaN else kind_of_scalar(fill_value))
         if fill_value is NaN:
+            if k == "int":
+                # numpy casts NaN to an integer dtype with a RuntimeWarning: the cells hold the smallest integer, not a missing value
+                return NdArr.from_fn("full", shape, "int", lambda *i: z3.IntVal(-2 ** 63))
+            if k == "bool":
+                return NdArr.from_fn("full", shape, "bool", lambda *i: z3.BoolVal(True))
             return NdArr.from_fn("full", shape, "real", lambda *i: z3.RealVal(0), lambda *i: z3.BoolVal(True))
         return NdArr.from_fn("full", shape, k, lambda *i: cast(fill_value, k))
+
+    def _like(name, fill):
+        @reg("numpy." + name)
+        def _f(E, a, *rest, dtype=None, shape=None, **kw):
+            """numpy.<x>_like(a, dtype=None, shape=None): the dtype (here: kind) and shape of `a` unless overridden"""
+            if not isinstance(a, NdArr):
+                raise Unsupported("%s(%r)" % (name, a))
+            if name == "full_like":
+                fv = rest[0] if rest else kw.get("fill_value")
+            k = kind_of_dtype(dtype, a.kind)
+            shp = shape_tuple(E, shape) if shape is not None else tuple(a.shape)
+            check_dims(E, shp)
+            if name == "empty_like":
+                return NdArr.fresh("empty_like", shp, k)
+            if name == "full_like":
+                return _full(E, shp, fv, dtype=DType("float64" if k == "real" else ("int64" if k == "int" else "bool")))
+            return NdArr.from_fn(name, shp, k, lambda *i: cast(fill, k))
+        return _f
+    _like("empty_like", None)
+    _like("zeros_like", 0)
+    _like("ones_like", 1)
+    _like("full_like", None)
 
     @reg("numpy.zeros")
     def _zeros(E, shape, dtype=None, **kw):
@@ -610,13 +645,31 @@ def install(R):
                 return r
         raise Unsupported("numpy.array(%r)" % (v,))
 
-    R.fns["numpy.asarray"] = lambda E, v, dtype=None, **kw: v if isinstance(v, NdArr) else _array(E, v, dtype)
+    def _asarray(E, v, dtype=None, **kw):
+        """numpy.asarray: the SAME array when no conversion is needed (an alias of the caller's data), a converted copy otherwise"""
+        if isinstance(v, NdArr):
+            if dtype is None or kind_of_dtype(dtype, v.kind) == v.kind:
+                return v
+            return arr_method(R, E, v, "astype", [dtype], {}, None)
+        return _array(E, v, dtype)
+    R.fns["numpy.asarray"] = _asarray
+
+    def _into_out(E, res, kw):
+        """ufunc(..., out=buffer): the result is written into the buffer, which is returned"""
+        out = kw.get("out")
+        if out is None:
+            return res
+        if not isinstance(out, NdArr) or not isinstance(res, NdArr):
+            raise Unsupported("out=%r" % (out,))
+        E.note_write(out, None)
+        assign_view(E, out, res, None)
+        return out
 
     def unary(name, fn, kind=None):
         @reg("numpy." + name)
         def _u(E, a, *rest, **kw):
             if isinstance(a, NdArr):
-                return arr_map(E, fn, [a], kind or a.kind)
+                return _into_out(E, arr_map(E, fn, [a], kind or a.kind), kw)
             if is_num_like(a):
                 r = fn(znum(a))
                 return z3.simplify(r)
@@ -729,6 +782,23 @@ def install(R):
             E.trace.append(dict(op="hstack", parts=parts, result=res_))
             return res_
         raise Unsupported("hstack of 1-d arrays")
+
+    @reg("numpy.result_type")
+    def _result_type(E, *dts):
+        """the dtype able to hold all the given ones, at the granularity the executor tracks (bool < int < real)"""
+        ks = []
+        for d in dts:
+            if isinstance(d, NdArr):
+                ks.append(d.kind)
+            elif isinstance(d, (DType, ExternFn, str)):
+                ks.append(kind_of_dtype(d))
+            elif is_num_like(d):
+                ks.append(kind_of_scalar(d))
+            else:
+                raise Unsupported("result_type(%r)" % (d,))
+        if "real" in ks:
+            return DType("float64")
+        return DType("int64") if "int" in ks else DType("bool")
 
     @reg("numpy.cumsum")
     def _cumsum(E, v, **kw):
